@@ -18,7 +18,7 @@ use ecverif::util::{Report, hex, unhex};
 use ethercrab::error::{Error, PduError};
 use ethercrab::subdevice_group::DcConfiguration;
 use ethercrab::verif::txrx::{self, SdSpec};
-use ethercrab::{MainDevice, MainDeviceConfig, Timeouts};
+use ethercrab::{MainDeviceConfig, Timeouts};
 use std::cell::RefCell;
 use std::panic::{AssertUnwindSafe, catch_unwind};
 use std::rc::Rc;
@@ -253,6 +253,7 @@ struct Dg {
     ado: u16,
     len: usize,
     data: Vec<u8>,
+    #[allow(dead_code)]
     more: bool,
 }
 
@@ -1011,8 +1012,24 @@ fn probe_deadlock(rep: &mut Report) {
     }
 }
 
-fn corpus(rep: &mut Report) {
+/// The witnesses of the two known findings (KNOWN_FINDINGS.txt), replayed on the real code.
+fn known_witnesses(rep: &mut Report) {
     probe_deadlock(rep);
+    for c in [
+        // c07/wkc-sum-overflow: two LRW chunks whose working counters sum to 65536
+        Case { variant: Variant::Plain, cap: 30, pdi_start: 0, read_len: 0, max_sd: 16, dc_ref: 0, idx0: 0, image: vec![1, 2, 3, 4], addrs: vec![], resps: vec![vec![(vec![1, 2], 0x8000)], vec![(vec![3, 4], 0x8000)]] },
+        // c07/sync-no-reference-deadlock on the deadlock-detecting lock
+        Case { variant: Variant::Sync, cap: 64, pdi_start: 0, read_len: 0, max_sd: 16, dc_ref: 0, idx0: 0, image: vec![], addrs: vec![], resps: vec![] },
+    ] {
+        let script = Script::Fixed(c.resps.clone());
+        let (given, obs) = run_raw::<16>(&c, script, 2, rep);
+        let c = Case { resps: given, ..c };
+        record(c, obs, rep, "witness");
+    }
+}
+
+fn corpus(rep: &mut Report) {
+    known_witnesses(rep);
     let fixed = |c: Case, rep: &mut Report| {
         let script = Script::Fixed(c.resps.clone());
         let (given, obs) = if c.max_sd == 160 { run_raw::<160>(&c, script, 2, rep) } else { run_raw::<16>(&c, script, 2, rep) };
@@ -1051,8 +1068,6 @@ fn corpus(rep: &mut Report) {
         },
         rep,
     );
-    // KNOWN FINDING witness: two LRW chunks whose working counters sum to 65536
-    fixed(Case { image: vec![1, 2, 3, 4], resps: vec![vec![(vec![1, 2], 0x8000)], vec![(vec![3, 4], 0x8000)]], ..base.clone() }, rep);
     // last window address 0xffff_ffff (inside), and a window leaving the address space (outside the property)
     fixed(Case { pdi_start: 0xffff_fffc, image: vec![9, 8, 7, 6], read_len: 4, resps: vec![vec![(vec![1, 2], 1)], vec![(vec![3, 4], 1)]], ..base.clone() }, rep);
     fixed(Case { pdi_start: 0xffff_ffff, image: vec![9, 8, 7, 6], read_len: 4, resps: vec![vec![(vec![1, 2], 1)], vec![(vec![3, 4], 1)]], ..base.clone() }, rep);
@@ -1100,16 +1115,15 @@ fn run_all(tier: &str, seed: u64, rep: &mut Report) {
 
     // ---- every frame size from the minimum upward
     let (caps, per): (Vec<usize>, usize) = if thorough {
-        let mut v: Vec<usize> = (30..=200).collect();
-        v.extend((201..=1514).step_by(7));
+        let mut v: Vec<usize> = (30..=260).collect();
+        v.extend((261..=1514).step_by(5));
         v.extend([1513, 1514]);
-        (v, 14)
+        (v, 30)
     } else {
-        let mut v: Vec<usize> = (30..=72).step_by(3).collect();
-        v.extend([31, 44, 50, 58]);
-        v.extend((80..=1514).step_by(97));
-        v.extend([1514]);
-        (v, 3)
+        let mut v: Vec<usize> = (30..=72).collect();
+        v.extend((73..=1514).step_by(41));
+        v.extend([1513, 1514]);
+        (v, 8)
     };
     for &cap in &caps {
         for variant in [Variant::Plain, Variant::Sync, Variant::Dc] {
@@ -1134,8 +1148,8 @@ fn run_all(tier: &str, seed: u64, rep: &mut Report) {
     }
 
     // ---- end to end through the real init on the simulated segment
-    let networks = if thorough { 260 } else { 26 };
-    let trials = if thorough { 16 } else { 8 };
+    let networks = if thorough { 600 } else { 60 };
+    let trials = if thorough { 24 } else { 10 };
     let sim_caps: Vec<usize> = {
         let mut v: Vec<usize> = vec![30, 31, 44, 50, 51, 58, 64, 100, 128, 256, 600, 1128, 1514];
         if thorough {
@@ -1158,6 +1172,8 @@ fn main() {
     let args = ecverif::parse_args();
     let mut rep = Report::default();
     if let Some(cases) = ecverif::replay_cases(&args) {
+        // the known-finding witnesses run on every invocation
+        known_witnesses(&mut rep);
         for line in cases.iter().filter(|c| c.starts_with("c07 ")) {
             if let Some(c) = parse_case(line) {
                 let script = Script::Fixed(c.resps.clone());
@@ -1171,6 +1187,3 @@ fn main() {
     }
     rep.write(&args.out, "c07");
 }
-
-#[allow(dead_code)]
-fn _unused(_: &MainDevice<'static>) {}
